@@ -247,8 +247,9 @@ func (e *e1) resolveCas(op *Op, d Doc) {
 				if !strings.HasPrefix(k, prefix) || k == e.key(op.Coll, op.Key) {
 					continue
 				}
-				for _, c := range e.casHist[k] {
-					if c != 0 && !current[c] {
+				hk := e.casHist[k]
+				for i := len(hk) - 1; i >= 0; i-- { // the newest one: what a "stale" CAS argument for that key resolves to
+					if c := hk[i]; c != 0 && !current[c] {
 						op.NewCas = c
 						e.probe("withmeta.reuses-stale-cas")
 						break pick
